@@ -63,16 +63,16 @@ package ndjson
 // numpy_to_json, from_json, from_json_to_numpy) must take the same decision per field.
 //@ spec func skippedWhenNull(t dsl.Type) bool = typeof(dsl.GetUnderlyingType(t)) == *dsl.GeneralizedType && dsl.GetUnderlyingType(t).(*dsl.GeneralizedType) != nil && len(dsl.GetUnderlyingType(t).(*dsl.GeneralizedType).Cases) > 1 && dsl.GetUnderlyingType(t).(*dsl.GeneralizedType).Cases[0].Type == nil && dsl.GetUnderlyingType(t).(*dsl.GeneralizedType).Dimensionality == nil
 //@ func writeRecordConverter@emits:"if value.%s is not None:\n"
-//@   property C02,C03
+//@   property C02,C03,C14
 //@   iteration 0: a_field_with_a_null_option_is_skipped_when_null: (skippedWhenNull(f.Type) ==> emittedHere("if value.%s is not None:\n") == 1) && (!skippedWhenNull(f.Type) ==> emittedHere("if value.%s is not None:\n") == 0)
 //@ func writeRecordConverter@emits:"if (field_val := value[\"%s\"]) is not None:\n"
-//@   property C02,C03
+//@   property C02,C03,C14
 //@   iteration 0: a_field_with_a_null_option_is_skipped_when_null: (skippedWhenNull(f.Type) ==> emittedHere("if (field_val := value[\"%s\"]) is not None:\n") == 1) && (!skippedWhenNull(f.Type) ==> emittedHere("if (field_val := value[\"%s\"]) is not None:\n") == 0)
 //@ func writeRecordConverter@emits:"%s=self._%s_converter.from_json(json_object.get(\"%s\")),\n"
-//@   property C02,C03
+//@   property C02,C03,C14
 //@   iteration 0: a_field_with_a_null_option_may_be_absent: (skippedWhenNull(f.Type) ==> emittedHere("%s=self._%s_converter.from_json(json_object.get(\"%s\")),\n") == 1) && (!skippedWhenNull(f.Type) ==> emittedHere("%s=self._%s_converter.from_json(json_object.get(\"%s\")),\n") == 0)
 //@ func writeRecordConverter@emits:"self._%s_converter.from_json_to_numpy(json_object.get(\"%s\")),\n"
-//@   property C02,C03
+//@   property C02,C03,C14
 //@   iteration 0: a_field_with_a_null_option_may_be_absent: (skippedWhenNull(f.Type) ==> emittedHere("self._%s_converter.from_json_to_numpy(json_object.get(\"%s\")),\n") == 1) && (!skippedWhenNull(f.Type) ==> emittedHere("self._%s_converter.from_json_to_numpy(json_object.get(\"%s\")),\n") == 0)
 
 // Output may not depend on the iteration order of a Go map (C12): decided per `range` over a map.
